@@ -4,8 +4,9 @@
  * usage: drv_rel <cases.txt> <out.ndjson>
  *
  * case file, one directive per line:
- *   X id=<n> ato=<ms> rf=<milli> mr=<n> ns=<n> nsess=<n> until=<ms>
- *   A <t> <sess> <CON|NON> <tokbyte> [F]   application submits a GET at virtual time t (ms after start)
+ *   X id=<n> ato=<ms> rf=<milli> mr=<n> ns=<n> nsess=<n> until=<ms> [ka=<s>: keepalive - an idle session pings its peer every <s> seconds]
+ *   A <t> <sess> <CON|NON> <tokbyte> [F] [m=<mid>]  application submits a GET at virtual time t (ms after start), optionally with
+ *                                          a message id of its own choosing (sessions of one context may use the same id at the same time)
  *   N <gap> <sess> <CON|NON> <tokbyte> [F] like A, but <gap> ms after the previous exchange on <sess> concluded
  *   R <tok> <c> <kind>+<d>[+<d>..] [..]    reaction of the peer to the c-th copy (0-based) it receives of the
  *                                          request with token byte <tok>; default: pig+0 (CON), sepnon+0 (NON)
@@ -31,12 +32,12 @@
 #define MAXS 4
 #define MAXC 10
 
-typedef struct { uint64_t t; int sess; int con; int tok; int fail; int done; int after_prev; int nprev; char path; } app_t;
+typedef struct { uint64_t t; int sess; int con; int tok; int fail; int done; int after_prev; int nprev; char path; int mid; } app_t;
 typedef struct { int n; struct { char kind[8]; int nd; int d[4]; } a[4]; } react_t;
 typedef struct { int kind; /*0 pass 1 lost 2 dup 3 delay*/ int d1, d2; } txv_t;
 
 static struct {
-  int id, ato, rf, mr, ns, nsess, tol, srv, trig;
+  int id, ato, rf, mr, ns, nsess, tol, srv, trig, ka;
   uint64_t until;
   app_t app[MAXA]; int napp;
   react_t react[256][MAXC]; int have_react[256][MAXC];
@@ -197,6 +198,12 @@ on_peer_rx(const sim_dgram_t *dg) {
   tr_hex(tok, d + 4, tkl);
   tr("\"e\":\"PeerRx\",\"k\":%d,\"dg\":%d,\"org\":%d,\"ty\":%u,\"code\":%u,\"mid\":%u,\"tok\":\"%s\",\"sig\":%u,\"port\":%u,\"from\":%u",
      k, dg->id, dg->origin, ty, code, mid, tok, sim_sig(dg->data, dg->len), sim_port(&dg->dst), sim_port(&dg->src));
+  if (ty == 0 && code == 0 && dg->len == 4) {
+    /* an Empty Confirmable message (a ping): every CoAP endpoint answers it with a Reset */
+    uint8_t b[4] = { 0x70, 0, d[2], d[3] };
+    peer_send(dg, b, 4, 3, "pong");
+    return;
+  }
   if (code >= 1 && code < 32 && tkl == 1 && copies_seen[d[4]] < MAXC && cs.have_react[d[4]][copies_seen[d[4]]]) {
     r = &cs.react[d[4]][copies_seen[d[4]]++];
   } else if (code >= 1 && code < 32 && tkl == 1 && copies_seen[d[4]] > 0 && copies_seen[d[4]] < MAXC &&
@@ -296,6 +303,8 @@ on_round(void) {
     tk = (uint8_t)a->tok;
     coap_add_token(pdu, 1, &tk);
     coap_add_option(pdu, COAP_OPTION_URI_PATH, 1, (const uint8_t *)(a->path ? &a->path : "r"));
+    if (a->mid >= 0)
+      coap_pdu_set_mid(pdu, (coap_mid_t)a->mid);       /* the application chooses the message id (coap_pdu_init / coap_pdu_set_mid) */
     mid = coap_pdu_get_mid(pdu);
     tr("\"e\":\"Call\",\"api\":\"send\",\"s\":%d,\"ty\":%d,\"mid\":%d,\"tok\":\"%02x\"", a->sess + 1,
        a->con ? 0 : 1, mid, tk);
@@ -345,6 +354,8 @@ run_case(void) {
   coap_register_response_handler(ctx, h_resp);
   coap_register_nack_handler(ctx, h_nack);
   coap_register_event_handler(ctx, h_event);
+  if (cs.ka)
+    coap_context_set_keepalive(ctx, (unsigned)cs.ka);
   sctx = NULL;
   if (cs.srv) {
     const char *paths[] = { "r", "w", "v" };
@@ -446,6 +457,7 @@ main(int argc, char **argv) {
       cs.until = (uint64_t)kv(line, "until", 300000);
       cs.srv = kv(line, "srv", 0);
       cs.trig = kv(line, "trig", 5000);
+      cs.ka = kv(line, "ka", 0);
       if (cs.nsess > MAXS) cs.nsess = MAXS;
     } else if ((line[0] == 'A' || line[0] == 'N') && cs.napp < MAXA) {
       app_t *a = &cs.app[cs.napp];
@@ -460,6 +472,7 @@ main(int argc, char **argv) {
         a->after_prev = line[0] == 'N';
         a->nprev = 0;
         a->path = strstr(line, " p=") ? strstr(line, " p=")[3] : 0;
+        a->mid = kv(line, "m", -1);
         if (a->sess >= 0 && a->sess < cs.nsess) {
           int q;
           for (q = 0; q < cs.napp; q++)
